@@ -210,7 +210,10 @@ func runSelftestCLI(prop, repo, vdir string) int {
 // configurations and in NaiveForm; the verdicts must agree.
 func configMatrix(run *Run, p *property, repo, vdir string) any {
 	type cfg struct{ goos, goarch string; naive bool }
-	cfgs := []cfg{{"linux", "amd64", true}, {"linux", "386", false}, {"windows", "amd64", false}, {"darwin", "arm64", false}}
+	// NaiveForm is deliberately not part of the matrix: the rules are written against go/ssa's
+	// lifted (register) form; the naive form is another normal form of the same program, so a
+	// disagreement there would say nothing about /repo (DESIGN 6.4).
+	cfgs := []cfg{{"linux", "386", false}, {"windows", "amd64", false}, {"darwin", "arm64", false}, {"freebsd", "amd64", false}}
 	mine := map[string]bool{}
 	for _, o := range run.Obs {
 		if o.Verdict != Holds {
